@@ -1267,7 +1267,7 @@ def c17(tier, seed):
             ex.res.count('cases_with_colliding_names')
         nops = ex.rng.randint(5, 40 if tier == 'thorough' else 25)
         for _ in range(nops):
-            kind = ex.rng.choice(['v', 'v', 'vrel', 'vrel', 'l', 'tp', 'tph', 'tph', 'tph', 'iham', 'iham', 'clust', 'lookup', 'gname', 'nav', 'atlevel', 'repeat',
+            kind = ex.rng.choice(['v', 'v', 'vrel', 'vrel', 'l', 'l', 'lrel', 'lrel', 'tp', 'tph', 'tph', 'tph', 'iham', 'iham', 'clust', 'lookup', 'gname', 'nav', 'atlevel', 'repeat',
                                   'misc', 'misc', 'misc'])
             if kind == 'misc':
                 # the rest of the public surface: listings, the remaining lookups, member navigation, exports to disk
@@ -1306,6 +1306,20 @@ def c17(tier, seed):
                         other = ex.rng.choice(cands)
                         ops.append([pw, 'v', anc, other] if other[:len(anc)] == anc else [pw, 'v', other, dsc])
                         ex.res.count('related_comparisons')
+                continue
+            if kind == 'lrel':
+                # a LATERAL comparison related to an earlier lateral one on the same analysis: one of its genomes again, this
+                # time with one of its own descendants / ancestors, or with a genome outside its clade (r14-C17a: a cached
+                # lineage truncated by an earlier common-ancestor query)
+                prevl = [o_ for o_ in ops if o_[1] == 'l']
+                if prevl:
+                    pw, _, a, b = ex.rng.choice(prevl)
+                    s_ = ex.rng.choice([a, b])
+                    cands = [t for t in taxa if t != s_ and (t[:len(s_)] == s_ or s_[:len(t)] == t)] if ex.rng.random() < 0.7 else \
+                            [t for t in taxa if t != s_ and t[:len(s_)] != s_ and s_[:len(t)] != t]
+                    if cands:
+                        ops.append([pw, 'l', s_, ex.rng.choice(cands)])
+                        ex.res.count('related_lateral_comparisons')
                 continue
             if kind == 'gname':
                 if subids and ex.rng.random() < 0.5:
